@@ -78,3 +78,74 @@ impl RngCore for ScriptRng {
         Ok(())
     }
 }
+
+/// A random source that notes, for every 64-bit word it hands out, which machine the framework was
+/// stepping (the machine of the most recent `transition` entry in the verif hook's log; `None` while the
+/// framework is being constructed). Used by the C10 tie to feed a machine running alone exactly the random
+/// words it received next to its neighbours. It drains the hook's recorder on every word, so runs made with
+/// it are compared on their returned actions only.
+pub struct TagRng {
+    pub inner: ScriptRng,
+    pub st: std::rc::Rc<std::cell::RefCell<TagState>>,
+}
+
+#[derive(Default, Debug)]
+pub struct TagState {
+    pub cur: Option<u64>,
+    pub words: Vec<(Option<u64>, u64)>,
+}
+
+impl RngCore for TagRng {
+    fn next_u32(&mut self) -> u32 {
+        (self.next_u64() >> 32) as u32
+    }
+    fn next_u64(&mut self) -> u64 {
+        let (_, log, _) = maybenot::verif::take();
+        let mut st = self.st.borrow_mut();
+        for (tag, a, _) in log {
+            if tag == maybenot::verif::LOG_TRANS {
+                st.cur = Some(a);
+            }
+        }
+        let w = self.inner.next_u64();
+        let cur = st.cur;
+        st.words.push((cur, w));
+        w
+    }
+    fn fill_bytes(&mut self, dest: &mut [u8]) {
+        impls::fill_bytes_via_next(self, dest)
+    }
+    fn try_fill_bytes(&mut self, dest: &mut [u8]) -> Result<(), Error> {
+        self.fill_bytes(dest);
+        Ok(())
+    }
+}
+
+/// Replays a fixed list of words; notes when it is asked for more than it has.
+pub struct ReplayRng {
+    pub words: Vec<u64>,
+    pub st: std::rc::Rc<std::cell::RefCell<(usize, bool)>>, // (words handed out, asked beyond the end)
+}
+
+impl RngCore for ReplayRng {
+    fn next_u32(&mut self) -> u32 {
+        (self.next_u64() >> 32) as u32
+    }
+    fn next_u64(&mut self) -> u64 {
+        let mut st = self.st.borrow_mut();
+        if st.0 < self.words.len() {
+            st.0 += 1;
+            self.words[st.0 - 1]
+        } else {
+            st.1 = true;
+            0x8000_0000_0000_0000
+        }
+    }
+    fn fill_bytes(&mut self, dest: &mut [u8]) {
+        impls::fill_bytes_via_next(self, dest)
+    }
+    fn try_fill_bytes(&mut self, dest: &mut [u8]) -> Result<(), Error> {
+        self.fill_bytes(dest);
+        Ok(())
+    }
+}
